@@ -27,6 +27,28 @@ type Mutex struct {
 	held bool
 }
 
+// RWMutex replaces sync.RWMutex (a refactoring may switch the name space lock to it).
+type RWMutex struct {
+	real    sync.RWMutex
+	writer  bool
+	readers int
+}
+
+// The rest of package sync is passed through unchanged, so the instrumented package keeps compiling
+// whatever it uses.
+type (
+	WaitGroup = sync.WaitGroup
+	Once      = sync.Once
+	Map       = sync.Map
+	Pool      = sync.Pool
+	Cond      = sync.Cond
+	Locker    = sync.Locker
+)
+
+func NewCond(l Locker) *Cond { return sync.NewCond(l) }
+
+func OnceFunc(f func()) func() { return sync.OnceFunc(f) }
+
 const (
 	MaxThreads = 6
 	MaxPoints  = 4096
@@ -44,12 +66,12 @@ const (
 
 // PointRec is one scheduling decision of an execution.
 type PointRec struct {
-	Thread  int8  // thread that reached the point
-	Kind    int8  //
-	NEn     int8  // number of enabled threads
-	En      [MaxThreads]int8 // enabled threads in canonical order (running first if enabled, then ascending)
-	Choice  int8  // index into En that was taken
-	RunEn   bool  // the thread that was running is still enabled (taking another one is a preemption)
+	Thread int8             // thread that reached the point
+	Kind   int8             //
+	NEn    int8             // number of enabled threads
+	En     [MaxThreads]int8 // enabled threads in canonical order (running first if enabled, then ascending)
+	Choice int8             // index into En that was taken
+	RunEn  bool             // the thread that was running is still enabled (taking another one is a preemption)
 }
 
 var (
@@ -57,6 +79,8 @@ var (
 	nthreads  int
 	status    [MaxThreads]int8 // 0 not started / runnable, 1 finished
 	waitMutex [MaxThreads]*Mutex
+	waitRW    [MaxThreads]*RWMutex
+	waitRWw   [MaxThreads]bool // waiting for the write side
 	current   int
 	pipes     [MaxThreads + 1][2]int
 	schedule  []int8
@@ -106,7 +130,7 @@ func decide(me int, kind int) {
 	var rec PointRec
 	rec.Thread, rec.Kind = int8(me), int8(kind)
 	// enabled set in canonical order
-	meEnabled := status[me] == 0 && (waitMutex[me] == nil || !waitMutex[me].held)
+	meEnabled := status[me] == 0 && (waitMutex[me] == nil || !waitMutex[me].held) && rwFree(me)
 	n := 0
 	if meEnabled {
 		rec.En[n] = int8(me)
@@ -117,6 +141,9 @@ func decide(me int, kind int) {
 			continue
 		}
 		if waitMutex[t] != nil && waitMutex[t].held {
+			continue
+		}
+		if !rwFree(t) {
 			continue
 		}
 		rec.En[n] = int8(t)
@@ -174,6 +201,73 @@ func decide(me int, kind int) {
 		}
 	}
 }
+
+// rwFree: thread t is not waiting for an RWMutex, or the side it wants is available.
+//
+//go:norace
+func rwFree(t int) bool {
+	m := waitRW[t]
+	if m == nil {
+		return true
+	}
+	if waitRWw[t] {
+		return !m.writer && m.readers == 0
+	}
+	return !m.writer
+}
+
+//go:norace
+func (m *RWMutex) Lock() {
+	if active {
+		me := current
+		waitRW[me], waitRWw[me] = m, true
+		decide(me, KLock)
+		waitRW[me] = nil
+		m.writer = true
+	}
+	m.real.Lock()
+}
+
+//go:norace
+func (m *RWMutex) Unlock() {
+	m.real.Unlock()
+	if active {
+		m.writer = false
+		decide(current, KUnlock)
+	}
+}
+
+//go:norace
+func (m *RWMutex) RLock() {
+	if active {
+		me := current
+		waitRW[me], waitRWw[me] = m, false
+		decide(me, KLock)
+		waitRW[me] = nil
+		m.readers++
+	}
+	m.real.RLock()
+}
+
+//go:norace
+func (m *RWMutex) RUnlock() {
+	m.real.RUnlock()
+	if active {
+		m.readers--
+		decide(current, KUnlock)
+	}
+}
+
+// TryLock and friends are not scheduling points.
+func (m *Mutex) TryLock() bool { return m.real.TryLock() }
+
+// RLocker mirrors sync.RWMutex.RLocker.
+func (m *RWMutex) RLocker() Locker { return (*rlocker)(m) }
+
+type rlocker RWMutex
+
+func (r *rlocker) Lock()   { (*RWMutex)(r).RLock() }
+func (r *rlocker) Unlock() { (*RWMutex)(r).RUnlock() }
 
 // Lock is a scheduling point; the thread is enabled only while the mutex is free.
 //
@@ -233,6 +327,7 @@ func setup(n int, sched []int8) {
 	for t := 0; t < MaxThreads; t++ {
 		status[t] = 0
 		waitMutex[t] = nil
+		waitRW[t] = nil
 	}
 	schedule = sched
 	ntrace = 0
